@@ -125,6 +125,8 @@ impl LeastSquaresProblem<f64, Dyn, U6> for PointsToMesh<'_> {
     type ParameterStorage = Owned<f64, U6>;
 
     fn set_params(&mut self, x: &Vector<f64, U6, Self::ParameterStorage>) {
+        #[cfg(feature = "verif")]
+        verif::log(0, x.as_slice());
         self.params.set(x);
         self.move_points();
     }
@@ -134,6 +136,8 @@ impl LeastSquaresProblem<f64, Dyn, U6> for PointsToMesh<'_> {
     }
 
     fn residuals(&self) -> Option<Vector<f64, Dyn, Self::ResidualStorage>> {
+        #[cfg(feature = "verif")]
+        verif::log(1, &[]);
         let mut res = Matrix::<f64, Dyn, U1, Self::ResidualStorage>::zeros(self.points.len());
         for (i, (p, c)) in self.moved.iter().zip(self.closest.iter()).enumerate() {
             res[i] = match self.mode {
@@ -146,6 +150,8 @@ impl LeastSquaresProblem<f64, Dyn, U6> for PointsToMesh<'_> {
     }
 
     fn jacobian(&self) -> Option<Matrix<f64, Dyn, U6, Self::JacobianStorage>> {
+        #[cfg(feature = "verif")]
+        verif::log(2, &[]);
         let _center = self.params.transform() * self.params.rc;
         let mut jac = Matrix::<f64, Dyn, U6, Self::JacobianStorage>::zeros(self.points.len());
         for (i, (p, c)) in self.moved.iter().zip(self.closest.iter()).enumerate() {
@@ -157,6 +163,59 @@ impl LeastSquaresProblem<f64, Dyn, U6> for PointsToMesh<'_> {
         }
 
         Some(jac)
+    }
+}
+
+/// Verification hook: drives the private least-squares problem directly and records the calls the
+/// solver makes on it (thread-local trace).
+#[cfg(feature = "verif")]
+pub mod verif {
+    use super::*;
+    use std::cell::RefCell;
+
+    thread_local! {
+        static TRACE: RefCell<Vec<(u8, Vec<f64>)>> = const { RefCell::new(Vec::new()) };
+    }
+
+    pub(super) fn log(op: u8, x: &[f64]) {
+        TRACE.with(|t| t.borrow_mut().push((op, x.to_vec())));
+    }
+
+    /// (0, x) = set_params(x), (1, []) = residuals(), (2, []) = jacobian(); cleared by the call
+    pub fn take_trace() -> Vec<(u8, Vec<f64>)> {
+        TRACE.with(|t| std::mem::take(&mut *t.borrow_mut()))
+    }
+
+    pub struct Probe3<'a>(PointsToMesh<'a>);
+
+    impl<'a> Probe3<'a> {
+        pub fn new(points: &'a [Point3], mesh: &'a Mesh, initial: &Iso3, mode: DistMode) -> Self {
+            Self(PointsToMesh::new(points, mesh, initial, mode))
+        }
+        pub fn set_params(&mut self, x: [f64; 6]) {
+            LeastSquaresProblem::set_params(&mut self.0, &Vector::<f64, U6, _>::from(x));
+        }
+        pub fn params(&self) -> Vec<f64> {
+            LeastSquaresProblem::params(&self.0).as_slice().to_vec()
+        }
+        pub fn residuals(&self) -> Vec<f64> {
+            LeastSquaresProblem::residuals(&self.0).unwrap().as_slice().to_vec()
+        }
+        pub fn jacobian(&self) -> Vec<[f64; 6]> {
+            let j = LeastSquaresProblem::jacobian(&self.0).unwrap();
+            (0..j.nrows())
+                .map(|i| [j[(i, 0)], j[(i, 1)], j[(i, 2)], j[(i, 3)], j[(i, 4)], j[(i, 5)]])
+                .collect()
+        }
+        pub fn moved(&self) -> &[Point3] {
+            &self.0.moved
+        }
+        pub fn closest(&self) -> &[SurfacePoint3] {
+            &self.0.closest
+        }
+        pub fn transform(&self) -> Iso3 {
+            self.0.current_transform()
+        }
     }
 }
 
